@@ -34,7 +34,7 @@ def cases(tier, seed):
     for cs in ("astronomical", "planetary"):
         for i in range(nb):
             out.append(dict(t="tile", cs=cs, gen=["uniform", "polar", "structure", "structure"][i % 4], n=30 if tier == "quick" else 60,
-                            D=R.choice([5, 6, 8, 12]) if tier == "quick" else R.choice([6, 8, 10, 12]), seed=R.randrange(1 << 30)))
+                            D=R.choice([5, 8, 12, 16, 20]) if tier == "quick" else R.choice([6, 8, 12, 16, 20, 24]), seed=R.randrange(1 << 30)))
         for i in range(8 if tier == "quick" else 160):
             out.append(dict(t="pixel", cs=cs, gen=["uniform", "polar89", "structure", "branch"][i % 4], n=14 if tier == "quick" else 25, seed=R.randrange(1 << 30)))
     return out
@@ -190,6 +190,20 @@ def case_pixel(spec):
                 lon, k, lat, d, spec["cs"], x, y, ix, iy, "; tile longitudes are on another 2pi branch than the query" if branch else ""))
         else:
             worst = max(worst, err)
+        # back to back, the point rotated by 180 degrees in the OTHER coordinate system: it has the same tile address
+        # (n, x, y); nothing remembered per address may be reused across coordinate systems
+        ocs = CS.ASTRONOMICAL if pl else CS.PLANETARY
+        t2, x2, y2 = toast.toast_pixel_for_point(d, lat, lon + math.pi, coordsys=ocs)
+        n += 1
+        if tuple(t2.pos) == tuple(tile.pos):
+            g2lon, g2lat = toast.toast_tile_get_coords(toast.create_single_tile(t2.pos, coordsys=ocs))
+            dots2 = rt.xyz(g2lon, g2lat) @ rt.xyz(lon + math.pi, lat)
+            jy, jx = np.unravel_index(np.argmax(dots2), dots2.shape)
+            e2 = max(abs(x2 - jx), abs(y2 - jy))
+            if not np.isfinite(e2) or e2 > 2:
+                keys.add("pixel-fit:after-lookup-in-other-coordinate-system")
+                probs.append("(lon=%.10g, lat=%.10g) depth %d: lookup in the %s system right after the same tile address %s was looked up in the other system returned pixel (x=%.2f, y=%.2f), nearest pixel centre is (x=%d, y=%d)" % (
+                    lon + math.pi, lat, d, "astronomical" if pl else "planetary", tuple(t2.pos), x2, y2, jx, jy))
         if len(probs) > 8:
             break
     r = dict(counters=dict(pixel_lookups=n, **{"pixel_points_" + spec["gen"]: len(pts)}), nontrivial=True, sample=dict(spec=spec, worst_error_px=worst))
